@@ -274,6 +274,8 @@ REDUCE = {
         lambda a: RV(np.add.accumulate(a.si), a.dim, err=np.add.accumulate(a.err) + a.si.size * E(np.add.accumulate(np.abs(a.si)))),
         lambda x: np.add.accumulate(x),
     ),
+    "mean": (lambda a: RV(np.mean(a.si), a.dim, err=_sumerr(a)), lambda x: x.mean()),
+    "np.mean": (lambda a: RV(np.mean(a.si), a.dim, err=_sumerr(a)), lambda x: np.mean(x)),
     "maximum.reduce": (lambda a: RV(np.maximum.reduce(a.si), a.dim, err=np.max(a.err)), lambda x: np.maximum.reduce(x)),
     "minimum.reduce": (lambda a: RV(np.minimum.reduce(a.si), a.dim, err=np.max(a.err)), lambda x: np.minimum.reduce(x)),
     "add.outer": (
@@ -359,10 +361,19 @@ def eval_real(prog, leaves, form="operator"):
         _ref, opf, uf, ipf = BINARY[prog[1]]
         if form == "method" and prog[1] == "dot" and isinstance(a, unyt_array):
             return a.dot(b)  # unyt_array.dot is separate code from np.dot's handler
+        if form in ("method-out", "method-out-return", "func-out") and prog[1] == "dot" and isinstance(a, unyt_array):
+            # the out= buffer and the returned object must both denote the product (w9: coefficient of cancelling units
+            # applied to the returned array only)
+            buf = unyt_array(np.full(np.dot(np.asarray(a), np.asarray(b)).shape, 7.0), "kg")
+            r = np.dot(a, b, out=buf) if form == "func-out" else a.dot(b, out=buf)
+            return r if form == "method-out-return" else buf
         if form == "helper" and prog[1] == "dot":
             from unyt.array import udot
 
             return udot(a, b)
+        if form == "inplace-scalar" and ipf is not None and isinstance(a, unyt_array) and np.shape(a) == () and np.shape(b) == ():
+            t = a.copy()  # q /= r on a 0-d quantity (w9: coefficient of cancelling units lost when the result is 0-d)
+            return ipf(t, b)
         if form == "operator" and opf is not None:
             return opf(a, b)
         bshape = np.broadcast(np.asarray(a), np.asarray(b)).shape if prog[1] not in ("dot", "matmul") else None
@@ -498,7 +509,7 @@ def part(ctx, shard):
         for prog in progs:
             forms = ("operator", "ufunc") if shape == "scalar" else ("operator", "ufunc", "inplace", "out")
             if prog[0] == "bin" and prog[1] == "dot":
-                forms = forms + ("method", "helper")
+                forms = forms + ("method", "helper", "method-out", "method-out-return", "func-out")
             check_program(ctx, prog, leaves, forms)
     ctx.sample({"leaf_units": list(shard[0][0]), "shape": shard[0][1], "programs": len(PROGS[len(shard[0][0])])})
 
@@ -615,8 +626,15 @@ def part_extra(ctx, shard):
         for prog in progs:
             forms = ("operator", "ufunc", "inplace", "out")
             if prog[0] == "bin" and prog[1] == "dot":
-                forms = forms + ("method", "helper")
+                forms = forms + ("method", "helper", "method-out", "method-out-return", "func-out")
             check_program(ctx, prog, leaves, forms)
+        # reductions of ONE leaf whose unit cancels into a number (km/m, g/kg ...), and 0-d operands in place
+        for r in REDUCE:
+            check_program(ctx, ("red", r, L0), leaves, ("operator",))
+        sleaves = [Leaf(u, i, pack, "scalar", None) for i, u in enumerate(units)]
+        for op in BINARY:
+            if BINARY[op][3] is not None:
+                check_program(ctx, ("bin", op, L0, L1), sleaves, ("operator", "inplace-scalar"))
 
 
 def _leaf(q):
